@@ -21,12 +21,17 @@ func init() {
 		if b < 0 {
 			name = "interleavings-unbounded"
 		}
-		c07Extra = append(c07Extra, mc.Scenario{Name: name, Tiers: "qt", ShardDepth: 2, Run: func(c *mc.Ctx) { c07Schedule(c, b) }})
+		c07Extra = append(c07Extra, mc.Scenario{Name: name, Tiers: "qt", ShardDepth: 2, Run: func(c *mc.Ctx) { c07Schedule(c, b, false) }})
 	}
+	// development aid (tier "x"): the same small configurations with and without pruning must
+	// produce the same set of result vectors
+	c07Extra = append(c07Extra, mc.Scenario{Name: "validate-small-unpruned", Tiers: "x", ShardDepth: 2, Run: func(c *mc.Ctx) { c07Validate(c, false) }})
+	c07Extra = append(c07Extra, mc.Scenario{Name: "validate-small-pruned", Tiers: "x", ShardDepth: 2, Run: func(c *mc.Ctx) { c07Validate(c, true) }})
+	c07Extra = append(c07Extra, mc.Scenario{Name: "interleavings-4-to-6-threads-state-pruned", Tiers: "qt", ShardDepth: 2, Run: func(c *mc.Ctx) { c07Schedule(c, -1, true) }})
 	// init order is by file name: c07.go has registered the property already
 	for i := range All {
 		if All[i].ID == "C07" {
-			All[i].Scenarios = append(c07Extra, All[i].Scenarios...)
+			All[i].Scenarios = append(All[i].Scenarios, c07Extra...) // the sweeps of bounded cost first, the interleavings last
 		}
 	}
 }
@@ -92,11 +97,122 @@ func c07Configs(thorough bool) [][]string {
 	return out
 }
 
-func c07Schedule(c *mc.Ctx, bound int) {
-	start := mc.From(c, []uint16{65535, 65534, 0, 7})
-	cfg := mc.From(c, c07Configs(c.Thorough()))
+// c07Large: 4-6 threads; explored without a preemption bound, with state-revisit pruning.
+var c07LargeCache [][]string
+
+func c07LargeConfigs() [][]string {
+	if c07LargeCache != nil {
+		return c07LargeCache
+	}
+	var out [][]string
+	// 4 threads: every non-decreasing assignment of lists of 1-2 operations
+	small := []string{"N", "R", "NN", "NR", "RN"}
+	for a := range small {
+		for b := a; b < len(small); b++ {
+			for d := b; d < len(small); d++ {
+				for e := d; e < len(small); e++ {
+					out = append(out, []string{small[a], small[b], small[d], small[e]})
+				}
+			}
+		}
+	}
+	// 5 and 6 threads: single operations, and one thread with two
+	for _, n := range []int{5, 6} {
+		for r := 0; r <= 2; r++ { // number of RollOverCount callers
+			cfg := make([]string, n)
+			for k := range cfg {
+				cfg[k] = "N"
+				if k < r {
+					cfg[k] = "R"
+				}
+			}
+			out = append(out, cfg)
+			for _, tail := range []string{"NN", "NR", "RN"} {
+				cfg2 := append([]string{}, cfg...)
+				cfg2[n-1] = tail
+				out = append(out, cfg2)
+			}
+		}
+	}
+	// biggest harnesses first: under a change that breaks the property the budget may not
+	// reach the end of the list, and the larger harnesses contain the behaviours of the smaller
+	for i, j := 0, len(out)-1; i < j; i, j = i+1, j-1 {
+		out[i], out[j] = out[j], out[i]
+	}
+	c07LargeCache = out
+	return out
+}
+
+type c07Start struct {
+	random bool
+	v      uint16
+}
+
+// c07Stub answers the random generator with a fixed value during a controlled execution.
+type c07Stub struct{ v int }
+
+func (g *c07Stub) Intn(n int) int {
+	if g.v >= n {
+		return n - 1
+	}
+	return g.v
+}
+func (g *c07Stub) Uint32() uint32                    { return 0 }
+func (g *c07Stub) Uint64() uint64                    { return 0 }
+func (g *c07Stub) GenerateString(int, string) string { return "" }
+
+var c07Visited = map[string]map[uint64]struct{}{}
+
+var c07ValidateMode = 0 // 1: small configs unpruned, 2: small configs pruned
+
+func c07Validate(c *mc.Ctx, prune bool) {
+	c07ValidateMode = 1
+	if prune {
+		c07ValidateMode = 2
+	}
+	defer func() { c07ValidateMode = 0 }()
+	c07Schedule(c, -1, prune)
+}
+
+func c07Schedule(c *mc.Ctx, bound int, large bool) {
+	starts := []c07Start{{false, 65535}, {false, 65534}, {false, 0}, {false, 7}, {true, 100}}
+	configs := c07Configs(c.Thorough())
+	if large {
+		starts = []c07Start{{false, 65535}, {false, 65534}, {false, 65533}, {false, 65532}, {false, 65531}, {false, 65530}, {false, 65529}, {false, 0}, {true, 100}}
+		configs = c07LargeConfigs()
+	}
+	if c07ValidateMode != 0 {
+		starts = []c07Start{{false, 65535}, {false, 65534}, {true, 100}}
+		configs = c07Configs(false)
+	}
+	var si, ci int
+	if large {
+		ci = c.Pick(len(configs))
+		si = c.Pick(len(starts))
+	} else {
+		si = c.Pick(len(starts))
+		ci = c.Pick(len(configs))
+	}
+	st, cfg := starts[si], configs[ci]
 	c.Barrier()
-	s := rtp.NewFixedSequencer(start)
+	var visited map[uint64]struct{}
+	if large || bound < 0 {
+		// one visited set per (start, configuration): states are only comparable within one harness
+		k := fmt.Sprintf("%v/%d/%d", large, si, ci)
+		if c07Visited[k] == nil {
+			c07Visited = map[string]map[uint64]struct{}{k: {}} // DFS finishes one configuration before the next
+		}
+		visited = c07Visited[k]
+	}
+	var s rtp.Sequencer
+	restore := func() {}
+	start := st.v
+	if st.random {
+		restore = rtp.VerifSetRandom(&c07Stub{int(st.v)})
+		s = rtp.NewRandomSequencer()
+	} else {
+		s = rtp.NewFixedSequencer(st.v)
+	}
 	var hist []porcupine.Operation
 	bodies := make([]func(), len(cfg))
 	for t := range cfg {
@@ -104,17 +220,48 @@ func c07Schedule(c *mc.Ctx, bound int) {
 		bodies[t] = func() {
 			for _, op := range cfg[t] {
 				call := sched.Clock()
+				sched.MarkCall()
 				var out uint64
 				if op == 'N' {
 					out = uint64(s.NextSequenceNumber())
 				} else {
 					out = s.RollOverCount()
 				}
+				sched.MarkReturn(out)
 				hist = append(hist, porcupine.Operation{ClientId: t, Input: c07In{op == 'N'}, Call: int64(call), Output: out, Return: int64(sched.Clock())})
 			}
 		}
 	}
-	r := sched.Run(c, bound, 10000, bodies)
+	// threads with the same operation list are one class
+	classes := make([]int, len(cfg))
+	for i := range cfg {
+		for j := 0; j <= i; j++ {
+			if cfg[j] == cfg[i] {
+				classes[i] = j
+				break
+			}
+		}
+	}
+	r := sched.Run(c, bound, 10000, visited, classes, bodies)
+	restore()
+	if r.Pruned {
+		c.Prune()
+	}
+	if st.random {
+		// the property fixes only "below 2^15": the start is read off the smallest value handed out
+		min := -1
+		for _, o := range hist {
+			if o.Input.(c07In).next && (min < 0 || int(o.Output.(uint64)) < min) {
+				min = int(o.Output.(uint64))
+			}
+		}
+		if min >= 1<<15 {
+			c.Failf("random-start-range", "random sequencer handed out %d as its smallest value", min)
+		}
+		if min >= 0 {
+			start = uint16(min)
+		}
+	}
 	c.Ops(len(hist))
 	desc := func() string {
 		var hs []string
@@ -125,7 +272,7 @@ func c07Schedule(c *mc.Ctx, bound int) {
 			}
 			hs = append(hs, fmt.Sprintf("t%d:%s[%d..%d]=%d", o.ClientId, name, o.Call, o.Return, o.Output))
 		}
-		return fmt.Sprintf("start=%d threads=%v schedule=%v preemptions=%d history: %s", start, cfg, r.Schedule, r.Preemptions, strings.Join(hs, " "))
+		return fmt.Sprintf("start=%d (random sequencer: %v) threads=%v schedule=%v preemptions=%d history: %s", start, st.random, cfg, r.Schedule, r.Preemptions, strings.Join(hs, " "))
 	}
 	if c.Verbose() {
 		c.Notef("%s", desc())
